@@ -15,6 +15,7 @@
       third-party-invite signature check: key id parses, signature and key decode, and
       [verify_canonical_json_bytes] succeeds on the canonical JSON of [signed]). *)
 From Base Require Import Prelude Sx Json Rules.
+From Gen Require Import TypeAliases.
 From C08 Require Import Types.
 
 (** ** Programs over the state *)
@@ -115,6 +116,16 @@ Definition pl_int (r : auth_rules) (j : json) : option Z :=
   | JStr s => if integer_power_levels r then None else parse_v1_string s
   | _ => None
   end.
+
+(** ** Event types as map keys.  [BTreeMap<TimelineEventType, Int>] (power_levels.rs:161-166):
+    every key goes through [TimelineEventType::from], which maps the aliases of the generated
+    table [Gen.TypeAliases] to their standard name; a later entry replaces an earlier one with
+    the same key. *)
+Definition canon_type (s : str) : str :=
+  match lookup s type_aliases with Some t => t | None => s end.
+
+Definition canon_map (m : amap Z) : amap Z :=
+  fold_left (fun acc kv => insert (canon_type (fst kv)) (snd kv) acc) m [].
 
 Section Model.
 Variable uid_ok : str -> bool.
@@ -232,7 +243,11 @@ Definition get_as_int_map (r : auth_rules) (keyok : str -> bool) (p : event) (fi
   end.
 
 Definition any_key (_ : str) : bool := true.
-Definition pl_events r p := get_as_int_map r any_key p s!"events".              (* :161-166 *)
+Definition pl_events r p :=                                                       (* :161-166 *)
+  match get_as_int_map r any_key p s!"events" with
+  | Some (Some m) => Some (Some (canon_map m))
+  | x => x
+  end.
 Definition pl_notifications r p := get_as_int_map r any_key p s!"notifications". (* :169-174 *)
 Definition pl_users r p := get_as_int_map r uid_ok p s!"users".                  (* :179-190 *)
 
